@@ -4,6 +4,7 @@ package main
 // statement subset on it.
 
 import (
+	"encoding/json"
 	"fmt"
 	"sort"
 	"strings"
@@ -390,6 +391,11 @@ func (env *sqlEnv) eval(e *SQLExpr) SVal {
 		if a.v.sort != SString || b.v.sort != SString {
 			sqlFail("type-mismatch: LIKE on non-text")
 		}
+		if x, ok := a.v.StrVal(); ok {
+			if pat, ok := b.v.StrVal(); ok {
+				return SVal{v: tt.Bool(likeMatch(x, pat)), null: tt.Or(a.null, b.null)}
+			}
+		}
 		return SVal{v: tt.UF("sql_like", SBool, a.v, b.v), null: tt.Or(a.null, b.null)}
 	case "jsonextract":
 		c, k := env.eval(e.args[0]), env.eval(e.args[1])
@@ -411,6 +417,24 @@ func (env *sqlEnv) eval(e *SQLExpr) SVal {
 			if a.null.IsTrue() {
 				return SVal{v: tt.Bool(false), null: tt.Bool(true)}
 			}
+			if c, isConst := a.v.StrVal(); isConst {
+				var cm map[string]string
+				if err := json.Unmarshal([]byte(c), &cm); err == nil {
+					m = &MapObj{sym: true, has: tt.ConstArr(SArrSB, tt.Bool(false)), val: tt.ConstArr(SArrSS, tt.Str(""))}
+					ks := make([]string, 0, len(cm))
+					for k := range cm {
+						ks = append(ks, k)
+					}
+					sort.Strings(ks)
+					for _, k := range ks {
+						m.keys = append(m.keys, tt.Str(k))
+						m.val = tt.Store(m.val, tt.Str(k), tt.Str(cm[k]))
+					}
+					ok = true
+				}
+			}
+		}
+		if !ok {
 			// unknown JSON argument: containment over decoded maps is not enumerable
 			sqlFail("@> with a non-marshalled argument")
 		}
@@ -803,6 +827,11 @@ func (ex *Exec) orderBefore(t *Table, st *SQLStmt, sel []*Term) func(j, i int) *
 					x, y = y, x
 				}
 				if isText {
+					if xs, ok := x.StrVal(); ok {
+						if ys, ok := y.StrVal(); ok {
+							return tt.Bool(xs < ys) // constants: the real (binary) collation
+						}
+					}
 					return tt.IntLt(ex.rkText(x), ex.rkText(y))
 				}
 				return tt.SLt(x, y)
@@ -978,4 +1007,35 @@ func sortedKeys(m map[string]int) []string {
 	}
 	sort.Strings(ks)
 	return ks
+}
+
+// likeMatch: SQL LIKE on constants (% any run, _ one character, ASCII case-insensitive as SQLite's default).
+func likeMatch(s, p string) bool {
+	s, p = strings.ToLower(s), strings.ToLower(p)
+	var rec func(i, j int) bool
+	rec = func(i, j int) bool {
+		for j < len(p) {
+			switch p[j] {
+			case '%':
+				for k := i; k <= len(s); k++ {
+					if rec(k, j+1) {
+						return true
+					}
+				}
+				return false
+			case '_':
+				if i >= len(s) {
+					return false
+				}
+				i, j = i+1, j+1
+			default:
+				if i >= len(s) || s[i] != p[j] {
+					return false
+				}
+				i, j = i+1, j+1
+			}
+		}
+		return i == len(s)
+	}
+	return rec(0, 0)
 }
